@@ -20,7 +20,7 @@ ASSUMPTIONS = [
 CASES = {"quick": 6000, "thorough": 400000}
 MIN_CASES = {"quick": 1500, "thorough": 30000}
 REQUIRED_CLASSES = ["split", "grid"]
-REQUIRED_COUNTERS = ["split_judged", "grid_judged", "aspect_checked", "count_checked", "parent_tiling_checked", "untouched_checked", "r_below_2"]
+REQUIRED_COUNTERS = ["split_judged", "grid_judged", "aspect_checked", "count_checked", "parent_tiling_checked", "untouched_checked", "accessor_checked", "r_below_2"]
 RS = [1.416, 1.42, 1.5, 1.7, 1.99, 2, 2.5, 3, 10]
 
 
@@ -52,6 +52,10 @@ def snap(rs):
 def judge_refinement(ctx, die, before_ref, before_block, before_fixed, d, what, r_limit=None, count=None, exact_count=False):
     scale = max(d["W"], d["H"])
     new_ref = die.specialized_regions + die.ground_regions
+    acc_ref, acc_fix = die.floorplanning_rectangles()
+    ctx.count("accessor_checked")
+    if sorted(snap(acc_ref)) != sorted(snap(new_ref)) or sorted(snap(acc_fix)) != sorted(snap(die.fixed_regions)):
+        ctx.violation("accessor_stale", f"{what}: floorplanning_rectangles() reports {len(acc_ref)} refinable / {len(acc_fix)} fixed regions, the die has {len(new_ref)} / {len(die.fixed_regions)}")
     ctx.count("untouched_checked")
     if snap(die.blockages) != before_block:
         ctx.violation("blockages_touched", f"{what}: blockages changed")
@@ -110,6 +114,7 @@ def check(case, ctx):
         if rows + cols <= 1:
             ctx.count("grid_1x1_skipped")
             return
+        die.floorplanning_rectangles()         # the accessor used before ... and after (below): what it reports must follow the refinement
         bref, bb, bf = snap(die.specialized_regions + die.ground_regions), snap(die.blockages), snap(die.fixed_regions)
         ok, e = ctx.call(die.initial_grid, rows, cols)
         if not ok:
@@ -128,6 +133,7 @@ def check(case, ctx):
             break
         if r < 2:
             ctx.count("r_below_2")
+        die.floorplanning_rectangles()
         bref, bb, bf = snap(die.specialized_regions + die.ground_regions), snap(die.blockages), snap(die.fixed_regions)
         ok, e = ctx.call(die.split_refinable_regions, r, n)
         if not ok:
